@@ -168,6 +168,11 @@ def encode (env : Env) : Nat → Ty → Val → Builder → Outcome Builder
           let child ← encode env fuel (.chain e) rest Builder.empty
           b.addRef child.toCell
       | _ => .err "bad value")
+    | .highload =>
+      if Prim.valLen v > 254 then .err "PayloadHighload supports only up to 254 messages"
+      else (match hlToDict v with
+        | some d => encode env fuel (.dictE (.uint 16) (.prim .any)) d b
+        | none => .err "bad value")
     | .encErr _ => .err "marshaling not implemented"
     | .opaque _ => .err "unmodelled"
 
